@@ -187,16 +187,14 @@ Section Proofs.
     destruct (pget k (api st)) as [v0|] eqn:Eapi.
     - destruct (as_str v0) as [old|] eqn:Eold; [|intro H; inversion H].
       destruct v0; try discriminate. inversion Eold; subst old.
-      destruct (str_eqb s v) eqn:Esv.
-      + (* same value: a copy goes to the user map, the api map keeps shadowing it *)
-        apply str_eqb_eq in Esv. subst s. unfold ssp_go. intro H.
-        destruct (ssp_user_ok _ _ _ _ _ H) as [Ha [Hk [Hf Hh]]].
-        unfold pref_lookup. rewrite Ha, Eapi. split; [reflexivity|]. split; [|split; [exact Hh | intros m Hm; exact Hm]].
-        intros m Hmk Hd. rewrite (Hf m Hmk Hd). reflexivity.
-      + unfold ssp_go. destruct (reset_files can_load st k v) as [a|] eqn:Er; [|intro H; inversion H].
-        intro H. inversion H; subst st'; clear H. unfold pref_lookup. cbn [api user].
-        rewrite pget_pset_same. split; [reflexivity|]. split; [|split; [auto | intros m Hm; apply has_pset; eapply reset_files_has; eauto]].
-        intros m Hmk Hd. rewrite pget_pset_other by exact Hmk. rewrite (reset_files_get st k v a m Er (Hla m Hd)). reflexivity.
+      unfold ssp_go. destruct (if negb (str_eqb s v) then _ else _) as [a|] eqn:Er; [|intro H; inversion H].
+      assert (Hget : forall m, str_eqb k s_Language && str_eqb m s_LanguageAuto = false -> pget m a = pget m (api st)).
+      { intros m Hm. destruct (negb (str_eqb s v)); [eapply reset_files_get; eauto | inversion Er; reflexivity]. }
+      assert (Hhas : forall m, has m (api st) -> has m a).
+      { intros m Hm. destruct (negb (str_eqb s v)); [eapply reset_files_has; eauto | inversion Er; subst; exact Hm]. }
+      intro H. inversion H; subst st'; clear H. unfold pref_lookup. cbn [api user].
+      rewrite pget_pset_same. split; [reflexivity|]. split; [|split; [auto | intros m Hm; apply has_pset; apply Hhas; exact Hm]].
+      intros m Hmk Hd. rewrite pget_pset_other by exact Hmk. rewrite (Hget m (Hla m Hd)). reflexivity.
     - destruct (pget k (user st)) as [v0|] eqn:Eu; [|intro H; inversion H].
       destruct (as_str v0) as [old|]; [|intro H; inversion H].
       unfold ssp_go. destruct (if negb (str_eqb old v) then _ else _) as [a|] eqn:Er; [|intro H; inversion H].
